@@ -78,6 +78,25 @@ Example C03_example_nine_operators_rejected :
   compile_and_serialize (lit "(def (Report (x 0))) (when true (:= Report.x (+ 1 (+ 1 (+ 1 (+ 1 (+ 1 (+ 1 (+ 1 (+ 1 (+ 1 1)))))))))))") [] = inl Err.
 Proof. vm_compute. reflexivity. Qed.
 
+(* the first clause read against the source: the instruction list of every compiled program (no
+   compile-time overrides) holds exactly one DEF per declaration of the (def ...) form that has a numeric
+   or boolean literal as its initial value -- whatever the declared names are (a name that is also a
+   datapath register's, a repeated name): none is dropped, none is added *)
+From Portus Require Import DefCount.
+Theorem C03_one_initialisation_per_literal_declaration : forall src cps decls rest b sc,
+  utf8_decode src = Some cps -> p_defs (parse_fuel cps) cps = POk decls rest ->
+  compile src [] = inl (Ok (b, sc)) ->
+  length (filter is_def_op (b_instrs b)) = nlit decls.
+Proof. exact def_count. Qed.
+Print Assumptions C03_one_initialisation_per_literal_declaration.
+
+Example C03_example_declared_register_name :
+  match compile (lit "(def (Cwnd 10) (foo 5) (bar other) (Report (volatile q true)))  (when true (:= Report.q false) (report))") [] with
+  | inl (Ok (b, _)) => length (filter is_def_op (b_instrs b)) = 3%nat
+  | _ => False
+  end.
+Proof. vm_compute. reflexivity. Qed.
+
 (* translator obligations (lib/gen_langtables.py reads serialize_op and the register encoder from
    src/lang/serialize.rs on every run): opcodes, class codes and index limits are the model's *)
 Theorem C03_source_opcodes_are_the_models :
